@@ -6,7 +6,7 @@ use crate::monitors::c05::member_args;
 use crate::rng::Rng;
 use crate::spec::{arity, VOCAB};
 
-pub const STREAMS: [&str; 9] = ["grammar", "mutate", "args3", "args2", "numeric", "special", "vocab", "multibyte", "longwords"];
+pub const STREAMS: [&str; 10] = ["grammar", "mutate", "args3", "args2", "numeric", "special", "vocab", "multibyte", "longwords", "charsweep"];
 
 const HOSTILE: [char; 40] = [
     ' ', '\t', '\n', '\r', '(', ')', '!', ',', '-', '+', '/', '=', '%', '\\', '{', '}', '\'', '"', '0', '7', '8', '9', 'a', 'u', 'r', 'x', 'k', 'M', 's', 'd', ':', '@', '~', '#', ';', '*', '\u{e9}', '\u{1f600}',
@@ -74,6 +74,15 @@ fn gen_text_tree(r: &mut Rng, depth: usize) -> String {
     }
 }
 
+/// every printable ASCII character (and one multi-byte one) at each position of each argument
+/// mini-language: '@' marks the swept position
+pub const CHARSWEEP_TEMPLATES: &[&str] = &[
+    "-size 5@", "-size +5@", "-size @", "-size 5k@", "-amin 5@", "-atime -5@", "-mtime @5", "-cmin 5m@", "-uid 5@", "-uid @", "-uid @5", "-gid +@", "-links 5@", "-inum @",
+    "-threads 4@", "-threads @", "-type @", "-type f@", "-type f,@", "-type @,f", "-perm @", "-perm @+r", "-perm u@r", "-perm u+@", "-perm u+r@", "-perm u+r,@", "-perm -@", "-perm /@", "-perm 64@", "-perm 644@", "-perm @644",
+    "-printf %@", "-printf a%@", "-printf %A@", "-printf %T@x", "-printf \\@", "-printf \\1@", "-printf \\12@", "-printf %{@}", "-printf %{xattr:@}", "-printf %{fid@", "-fprintf f %@", "-fprintf @ %p",
+    "-name @", "-name a@", "-name '@'", "-name \"@\"", "-name @ -print", "-xattr-match @ v", "-xattr-match n @", "-pool @", "-true@", "-true @", "@-true", "-print@", "-depth@", "( -true @)", "(@ -true )", "! @", "-true -o @", "-true , @", "-@", "--@", "-fprint @",
+];
+
 pub fn count(stream: &str, thorough: bool, scale: f64) -> u64 {
     let base: u64 = match stream {
         "grammar" => if thorough { 600_000 } else { 60_000 },
@@ -85,6 +94,7 @@ pub fn count(stream: &str, thorough: bool, scale: f64) -> u64 {
         "vocab" => if thorough { 150_000 } else { 20_000 },
         "multibyte" => if thorough { 50_000 } else { 8_000 },
         "longwords" => if thorough { 200_000 } else { 30_000 },
+        "charsweep" => return CHARSWEEP_TEMPLATES.len() as u64 * 96,
         _ => 0,
     };
     ((base as f64) * scale).max(1.0) as u64
@@ -223,6 +233,12 @@ pub fn input(seed: u64, stream: &str, i: u64) -> String {
                 cs.truncate(cut);
             }
             cs.iter().collect()
+        }
+        "charsweep" => {
+            let t = CHARSWEEP_TEMPLATES[(i / 96) as usize % CHARSWEEP_TEMPLATES.len()];
+            let k = i % 96;
+            let c = if k == 95 { '\u{e9}' } else { (0x20u8 + k as u8) as char };
+            t.replacen('@', &c.to_string(), 1)
         }
         "longwords" => {
             // long words (up to ~300 bytes) of mixed ASCII / multi-byte characters in keyword and
